@@ -165,6 +165,7 @@ def gen(item, rng, tier):
             kind = 'none'           # no passing slot for a UDF in this cell: plain block
     flags_static = True
     written = set()
+    sp_loaded = stack_used = False
     for i in range(n):
         last = i == n - 1
         if i == special:
@@ -210,7 +211,9 @@ def gen(item, rng, tier):
             # checked for 'failing condition => no register, flag or memory change' and for the ITSTATE advance
             slots.append({'t': 'any', 'w': rand_dp32(rng), 'name': 'dp32'})
         elif t == 'multi':
-            kindm = rng.choice(['stm', 'ldm', 'ldrd', 'strd', 'nop', 'nopw', 'msr_x', 'msr_x'])      # (no PUSH/POP: another slot may load SP)
+            kindm = rng.choice(['stm', 'ldm', 'ldrd', 'strd', 'nop', 'nopw', 'msr_x', 'msr_x'] + ([] if sp_loaded else ['push', 'pop', 'push', 'pop', 'popw']))
+            if kindm in ('push', 'pop', 'popw'):
+                stack_used = True                     # (only in blocks in which no slot loads SP from memory)
             if kindm in ('stm', 'ldm'):
                 lst = rng.getrandbits(5) | rng.choice([1, 2, 3])
                 if bin(lst).count('1') < 2:
@@ -218,6 +221,10 @@ def gen(item, rng, tier):
                 w = T.ldstm_w(kindm == 'ldm', 6, lst, db=0, w=0)            # base r6 (data page), no write-back
             elif kindm in ('push', 'pop'):
                 w = (0xB400 if kindm == 'push' else 0xBC00) | (rng.getrandbits(5) | 1)
+            elif kindm in ('push', 'pop'):
+                w = (0xB400 if kindm == 'push' else 0xBC00) | (rng.getrandbits(5) | 1)
+            elif kindm == 'popw':
+                w = rng.choice([0xE8BD0000 | (rng.getrandbits(5) | 3), 0xF85D0B04 | rng.randrange(5) << 12])      # POP.W {list} / LDR rt,[sp],#4
             elif kindm == 'msr_x':
                 # MSR CPSR_x / CPSR_sx from a pointer register whose bits 15:10 are not zero: only an exception return may write the IT bits
                 w = 0xF3808000 | rng.choice([6, 7]) << 16 | rng.choice([2, 6]) << 8
@@ -229,7 +236,9 @@ def gen(item, rng, tier):
             slots.append({'t': 'any', 'w': w, 'name': kindm})
         elif t in ('ldrw', 'strw'):
             # 32-bit load/store whose second halfword starts with every Rt value, SP included (hw2[15:12] = 0b1101 looks like a B<c> halfword)
-            rt = rng.choice([rd, rd, 13 if t == 'ldrw' else rd, 12, 8])
+            rt = rng.choice([rd, rd, 13 if (t == 'ldrw' and not stack_used) else rd, 12, 8])
+            if rt == 13:
+                sp_loaded = True
             off = rng.randrange(0, 16)
             if t == 'ldrw':
                 slots.append({'t': 'ldr', 'w': T.ldr_w(rt, 6, 4 * off + rng.choice([0, 0x100, 0x300]) * 0), 'rd': rt, 'addr': P.DBASE + 4 * off})
@@ -248,9 +257,9 @@ def gen(item, rng, tier):
             slots.append({'t': 'ldr', 'w': T.ldst_imm('ldr', rd, 6, off), 'rd': rd, 'addr': P.DBASE + 4 * off})
         elif t == 'b':
             # a branch as last slot, skipping the 16-bit marker that follows the block: B (T2), B.W (T4), BL, BX Rm, BLX Rm
-            form = rng.choice(['b', 'b', 'bw', 'bl', 'bx', 'blx', 'movpc', 'ldrpc', 'ldrpc16'])
+            form = rng.choice(['b', 'b', 'bw', 'bl', 'bx', 'blx', 'movpc', 'ldrpc', 'ldrpc16'] + ([] if (sp_loaded or stack_used) else ['poppc', 'poppc', 'poppcw']))
             w = {'b': T.b(4), 'bw': 0xF000B801, 'bl': 0xF000F801, 'bx': T.bx(9), 'blx': 0x4780 | 9 << 3, 'movpc': 0x46CF,
-                 'ldrpc': 0xF8D6F0FC, 'ldrpc16': 0xF8D6F0FC}[form]          # LDR pc,[r6,#0xFC]: the word there is the target (Thumb bit set)
+                 'ldrpc': 0xF8D6F0FC, 'ldrpc16': 0xF8D6F0FC, 'poppc': 0xBD10, 'poppcw': 0xE8BD8010}[form]           # POP {r4,pc}: the compiler's conditional return          # LDR pc,[r6,#0xFC]: the word there is the target (Thumb bit set)
             slots.append({'t': 'b', 'w': w, 'form': form, 'name': 'branch_' + form})
     # optional prologue / epilogue: the very same MOVS halfwords that sit in the block are also executed outside it, where they
     # must set N/Z (and inside they must not) — decode-time context must not leak from one execution to the next
@@ -305,6 +314,9 @@ def gen(item, rng, tier):
         st['R']['R9usr'] = tgt | 1
         slots[-1]['target'] = tgt
         G.set_data(devices[2], 0x4FC, (tgt | 1).to_bytes(4, 'little'))
+        if slots[-1].get('form') in ('poppc', 'poppcw'):
+            top = P.STACK_TOP['usr' if mode in ('usr', 'sys') else 'svc']
+            G.set_data(devices[3], top - G.STACKS, (0x4444).to_bytes(4, 'little') + (tgt | 1).to_bytes(4, 'little'))
     events = []
     pos = None
     if kind in ('irq', 'fiq'):
